@@ -273,6 +273,7 @@ func c01Scenarios(tier string) []*Scenario {
 			out = append(out, c01Seq(p, 2, Bounds{2, -1, 0}))
 		}
 		out = append(out, c01Seq([]string{"[cc]", "c"}, 1, Bounds{2, -1, 0}))
+		out = append(out, c01Seq([]string{"n", "c"}, 1, Bounds{2, -1, 0}), c01Seq([]string{"[nc]", "[cn]"}, 1, Bounds{1, -1, 0}))
 		out = append(out, c01Seq([]string{"c", "n", "c"}, 2, Bounds{1, -1, 0}))
 		return out
 	}
